@@ -13,6 +13,11 @@ package main
 //   <v> ::= recv.F | recv.F.DeepCopy() | x | x.DeepCopy() | &tmp | make(...)
 //         | tools.Map(recv.F, func(p E) E { return p.DeepCopy() | p })
 //         | recv.F.Map(func(_ K, v V) V { return v.DeepCopy() | v })      (orderedmap)
+//         | deepCopyValue(<v>)        the dynamic-value helper of package ast (func(any) any), analysed in dyn.go
+//         | &T{G: <v>, ...}           inline copy of a pointed-to struct without DeepCopy method; its
+//                                     fields are then filled through res.F.G / recv.F.G paths
+//
+//   recv.F may be a path recv.F.G (through a pointer, under `if recv.F != nil`).
 
 import (
 	"go/ast"
@@ -27,7 +32,7 @@ type src struct {
 }
 
 type value struct {
-	kind  string // asis | deep | ptrdeep | make | sliceOf | omapOf | appendSpread | appendOne | index | lit
+	kind  string // asis | deep | ptrdeep | dyn | make | makeN | sliceOf | omapOf | appendSpread | appendOne | index | lit | ptrlit
 	src   src
 	mode  *Mode // deep/ptrdeep: mode of the copy; sliceOf/omapOf: element mode
 	typ   types.Type
@@ -44,6 +49,9 @@ type menv struct {
 	res      types.Object
 	vars     map[types.Object]*value
 	events   map[string][]*value
+	consumed map[string]bool // nested event keys used by an inline struct copy
+	direct   *Mode           // `return recv.DeepCopy()` / `return recv`
+	loops    int
 }
 
 func (w *world) analyse(name string) {
@@ -55,48 +63,73 @@ func (w *world) analyse(name string) {
 	}
 	w.busy[name] = true
 	m := w.methods[name]
-	e := &menv{w: w, m: m, vars: map[types.Object]*value{}, events: map[string][]*value{}}
+	fms, root := w.analyseFunc(m, m.decl.Body.List, m.decl)
+	if fms != nil {
+		w.addCopy(name, fms)
+	} else {
+		m.rootMode = root
+	}
+	w.done[name] = true
+	w.busy[name] = false
+}
+
+// analyseFunc: the body of a copy routine for receiver m.recvObj of type m.base.  Returns the
+// per-field modes (struct receivers built field by field) or the mode of the whole receiver.
+func (w *world) analyseFunc(m *method, body []ast.Stmt, at ast.Node) ([]FieldMode, *Mode) {
+	name := m.name
+	e := &menv{w: w, m: m, vars: map[types.Object]*value{}, events: map[string][]*value{}, consumed: map[string]bool{}}
 	st, isStruct := m.base.Underlying().(*types.Struct)
 	e.isStruct = isStruct
 	if isStruct {
-		if !types.Identical(m.result, m.base) {
-			refuse("%s: DeepCopy of struct %s returns %s", w.pos(m.decl), name, m.result)
+		if !m.loose && !types.Identical(m.result, m.base) {
+			refuse("%s: copy of struct %s returns %s", w.pos(at), name, m.result)
 		}
 	} else {
-		if _, ok := m.base.Underlying().(*types.Slice); !ok {
-			refuse("%s: DeepCopy receiver %s is neither a struct nor a slice", w.pos(m.decl), name)
+		switch m.base.Underlying().(type) {
+		case *types.Slice, *types.Map:
+		default:
+			refuse("%s: copy receiver %s is neither a struct, a slice nor a map", w.pos(at), name)
 		}
-		if !types.Identical(m.result.Underlying(), m.base.Underlying()) {
-			refuse("%s: DeepCopy of %s returns %s", w.pos(m.decl), name, m.result)
+		if !m.loose && !types.Identical(m.result.Underlying(), m.base.Underlying()) {
+			refuse("%s: copy of %s returns %s", w.pos(at), name, m.result)
 		}
 	}
-	body := m.decl.Body.List
 	if len(body) == 0 {
-		refuse("%s: empty DeepCopy body", w.pos(m.decl))
+		refuse("%s: empty copy body", w.pos(at))
 	}
 	for i, s := range body {
 		e.stmt(s, "", i == len(body)-1)
+	}
+	if e.direct != nil {
+		if len(e.events) != 0 {
+			refuse("%s: direct return mixed with field writes", w.pos(at))
+		}
+		return nil, e.direct
 	}
 	if isStruct {
 		w.tyOf(m.base, "receiver "+name)
 		fms := make([]FieldMode, 0, st.NumFields())
 		for i := 0; i < st.NumFields(); i++ {
 			f := st.Field(i)
-			md, how := e.classify(f.Name(), f.Type(), m.decl)
+			md, how := e.classify(f.Name(), f.Type(), at)
 			fms = append(fms, FieldMode{Field: f.Name(), Mode: md, How: how})
 		}
 		for fname := range e.events {
-			if fname == "" || !hasField(st, fname) {
-				refuse("%s: assignment to unknown field %q", w.pos(m.decl), fname)
+			top := fname
+			if i := strings.Index(fname, "."); i >= 0 {
+				top = fname[:i]
+				if !e.consumed[fname] {
+					refuse("%s: write to nested field %q that is not part of an inline struct copy", w.pos(at), fname)
+				}
+			}
+			if top == "" || !hasField(st, top) {
+				refuse("%s: assignment to unknown field %q", w.pos(at), fname)
 			}
 		}
-		w.addCopy(name, fms)
-	} else {
-		md, _ := e.classify("", m.base.Underlying(), m.decl)
-		m.rootMode = &md
+		return fms, nil
 	}
-	w.done[name] = true
-	w.busy[name] = false
+	md, _ := e.classify("", m.base.Underlying(), at)
+	return nil, &md
 }
 
 func hasField(st *types.Struct, name string) bool {
@@ -136,7 +169,7 @@ func modeEq(a, b Mode) bool {
 func (e *menv) pos(n ast.Node) string { return e.w.pos(n) }
 
 func (e *menv) event(field string, v *value, at ast.Node, guard string) {
-	if guard != "" && guard != field {
+	if guard != "" && guard != field && !strings.HasPrefix(field, guard+".") {
 		refuse("%s: statement guarded by / ranging over field %q writes field %q", e.pos(at), guard, field)
 	}
 	e.events[field] = append(e.events[field], v)
@@ -164,12 +197,15 @@ func (e *menv) stmt(s ast.Stmt, guard string, last bool) {
 		}
 		e.res = obj
 	case *ast.RangeStmt:
-		if guard != "" {
+		if e.loops > 0 {
 			refuse("%s: nested loop", e.pos(s))
 		}
 		x := e.eval(st.X)
 		if x.kind != "asis" || x.src.part != "" {
 			refuse("%s: range over something that is not a receiver field", e.pos(s))
+		}
+		if guard != "" && x.src.field != guard && !strings.HasPrefix(x.src.field, guard+".") {
+			refuse("%s: loop over %q inside a block guarded by %q", e.pos(s), x.src.field, guard)
 		}
 		var kt, vt types.Type
 		vpart := "elem"
@@ -205,12 +241,17 @@ func (e *menv) stmt(s ast.Stmt, guard string, last bool) {
 		if g == "" {
 			g = "\x00self"
 		}
+		e.loops++
 		for _, b := range st.Body.List {
 			e.stmt(b, g, false)
 		}
+		e.loops--
 	case *ast.IfStmt:
 		if st.Else != nil || st.Init != nil || guard != "" {
 			refuse("%s: unsupported if form", e.pos(s))
+		}
+		if e.nilReceiverReturn(st) {
+			return // `if recv == nil { return recv }` on a slice/map receiver: nil stays nil
 		}
 		f := e.guardField(st.Cond)
 		for _, b := range st.Body.List {
@@ -222,14 +263,28 @@ func (e *menv) stmt(s ast.Stmt, guard string, last bool) {
 		}
 		switch r := ast.Unparen(st.Results[0]).(type) {
 		case *ast.Ident:
+			if e.res == nil && e.w.info().Uses[r] == e.m.recvObj {
+				md := asIsMode(e.m.base) // the receiver itself is handed back
+				e.direct = &md
+				return
+			}
 			if e.res == nil || e.w.info().Uses[r] != e.res {
 				refuse("%s: returns %s which is not the result variable", e.pos(s), r.Name)
 			}
+		case *ast.CallExpr:
+			v := e.eval(r)
+			if e.res != nil || v.kind != "deep" || v.src != (src{}) {
+				refuse("%s: unsupported return expression", e.pos(s))
+			}
+			e.direct = v.mode
 		case *ast.CompositeLit:
 			if e.res != nil {
 				refuse("%s: returns a literal although a result variable exists", e.pos(s))
 			}
 			v := e.eval(r)
+			if !types.Identical(v.typ, e.m.result) && !(e.m.loose && types.Identical(v.typ, e.m.base)) {
+				refuse("%s: returns a literal of type %s", e.pos(s), v.typ)
+			}
 			e.takeLit(v, s)
 		default:
 			refuse("%s: unsupported return expression", e.pos(s))
@@ -278,23 +333,57 @@ func (e *menv) takeLit(v *value, at ast.Node) {
 	}
 }
 
-func (e *menv) fieldOfRes(ex ast.Expr) (string, bool) {
+// resPath: ex is the result variable ("" , true) or a field path below it ("F", "F.G").
+func (e *menv) resPath(ex ast.Expr) (string, bool) {
 	ex = ast.Unparen(ex)
 	if id, ok := ex.(*ast.Ident); ok {
-		if e.res != nil && e.w.info().Uses[id] == e.res && !e.isStruct {
-			return "", true
-		}
-		return "", false
+		return "", e.res != nil && e.w.info().Uses[id] == e.res
 	}
 	sel, ok := ex.(*ast.SelectorExpr)
 	if !ok {
 		return "", false
 	}
-	id, ok := ast.Unparen(sel.X).(*ast.Ident)
-	if !ok || e.res == nil || e.w.info().Uses[id] != e.res || !e.isStruct {
+	if s := e.w.info().Selections[sel]; s == nil || s.Kind() != types.FieldVal {
 		return "", false
 	}
-	return sel.Sel.Name, true
+	p, ok := e.resPath(sel.X)
+	if !ok {
+		return "", false
+	}
+	if p == "" {
+		return sel.Sel.Name, true
+	}
+	return p + "." + sel.Sel.Name, true
+}
+
+func (e *menv) fieldOfRes(ex ast.Expr) (string, bool) {
+	p, ok := e.resPath(ex)
+	if !ok || (p == "") == e.isStruct {
+		return "", false // the bare result is a target only for slice/map results; a path only for struct results
+	}
+	return p, true
+}
+
+// nilReceiverReturn: `if recv == nil { return recv }` (slice / map receivers)
+func (e *menv) nilReceiverReturn(st *ast.IfStmt) bool {
+	if e.isStruct || len(st.Body.List) != 1 {
+		return false
+	}
+	be, ok := ast.Unparen(st.Cond).(*ast.BinaryExpr)
+	if !ok || be.Op != token.EQL {
+		return false
+	}
+	x, ok1 := ast.Unparen(be.X).(*ast.Ident)
+	y, ok2 := ast.Unparen(be.Y).(*ast.Ident)
+	if !ok1 || !ok2 || e.w.info().Uses[x] != e.m.recvObj || y.Name != "nil" {
+		return false
+	}
+	r, ok := st.Body.List[0].(*ast.ReturnStmt)
+	if !ok || len(r.Results) != 1 {
+		return false
+	}
+	id, ok := ast.Unparen(r.Results[0]).(*ast.Ident)
+	return ok && e.w.info().Uses[id] == e.m.recvObj
 }
 
 func (e *menv) assign(lhs, rhs ast.Expr, define bool, guard string, at ast.Stmt) {
@@ -343,9 +432,15 @@ func (e *menv) assign(lhs, rhs ast.Expr, define bool, guard string, at ast.Stmt)
 	v := e.eval(rhs)
 	switch {
 	case v.kind == "lit" && e.res == nil && guard == "" && e.isStruct:
+		if !types.Identical(v.typ, e.m.result) && !(e.m.loose && types.Identical(v.typ, e.m.base)) {
+			refuse("%s: literal of type %s is not the result", e.pos(at), v.typ)
+		}
 		e.res = obj
 		e.takeLit(v, at)
-	case v.kind == "make" && e.res == nil && guard == "" && !e.isStruct:
+	case (v.kind == "make" || v.kind == "makeN") && e.res == nil && guard == "" && !e.isStruct:
+		if v.kind == "makeN" && v.src != (src{}) {
+			refuse("%s: result sized after something that is not the receiver", e.pos(at))
+		}
 		e.res = obj
 		e.event("", v, at, "")
 	case v.kind == "deep":
@@ -370,14 +465,25 @@ func (e *menv) eval(ex ast.Expr) *value {
 		}
 		refuse("%s: identifier %s is neither the receiver, a range variable nor a copy temporary", e.pos(ex), x.Name)
 	case *ast.SelectorExpr:
-		if id, ok := ast.Unparen(x.X).(*ast.Ident); ok && info.Uses[id] == e.m.recvObj {
-			if sel := info.Selections[x]; sel != nil && sel.Kind() == types.FieldVal {
-				return &value{kind: "asis", src: src{field: x.Sel.Name}, typ: sel.Type()}
+		if sel := info.Selections[x]; sel != nil && sel.Kind() == types.FieldVal {
+			if _, isCall := ast.Unparen(x.X).(*ast.CallExpr); !isCall {
+				b := e.eval(x.X)
+				if b.kind == "asis" && b.src.part == "" {
+					f := x.Sel.Name
+					if b.src.field != "" {
+						f = b.src.field + "." + f
+					}
+					return &value{kind: "asis", src: src{field: f}, typ: sel.Type()}
+				}
 			}
 		}
 		refuse("%s: unsupported selector expression", e.pos(ex))
 	case *ast.UnaryExpr:
 		if x.Op == token.AND {
+			if cl, isLit := ast.Unparen(x.X).(*ast.CompositeLit); isLit {
+				v := e.eval(cl)
+				return &value{kind: "ptrlit", lit: v.lit, keys: v.keys, typ: types.NewPointer(v.typ)}
+			}
 			v := e.eval(x.X)
 			if _, isId := ast.Unparen(x.X).(*ast.Ident); isId && v.kind == "deep" {
 				return &value{kind: "ptrdeep", src: v.src, mode: v.mode, typ: types.NewPointer(v.typ)}
@@ -386,7 +492,7 @@ func (e *menv) eval(ex ast.Expr) *value {
 		refuse("%s: unsupported unary expression", e.pos(ex))
 	case *ast.CompositeLit:
 		t := info.TypeOf(x)
-		if !types.Identical(t, e.m.result) {
+		if _, isStruct := t.Underlying().(*types.Struct); !isStruct {
 			refuse("%s: composite literal of type %s", e.pos(ex), t)
 		}
 		v := &value{kind: "lit", lit: map[string]*value{}, typ: t}
@@ -420,7 +526,17 @@ func (e *menv) call(c *ast.CallExpr) *value {
 						refuse("%s: make without length", e.pos(c))
 					}
 					if lit, ok := c.Args[1].(*ast.BasicLit); !ok || lit.Value != "0" {
-						refuse("%s: make of a slice with non-zero length (zero elements would precede the copies)", e.pos(c))
+						// make([]T, len(x)): to be filled by index over a loop on x
+						if lc, ok := ast.Unparen(c.Args[1]).(*ast.CallExpr); ok && len(c.Args) == 2 && len(lc.Args) == 1 {
+							if lid, ok := lc.Fun.(*ast.Ident); ok && lid.Name == "len" {
+								if _, isB := info.Uses[lid].(*types.Builtin); isB {
+									if lv := e.eval(lc.Args[0]); lv.kind == "asis" && lv.src.part == "" {
+										return &value{kind: "makeN", src: lv.src, typ: t}
+									}
+								}
+							}
+						}
+						refuse("%s: make of a slice with a length that is neither 0 nor len(source)", e.pos(c))
 					}
 				case *types.Map:
 				default:
@@ -448,6 +564,19 @@ func (e *menv) call(c *ast.CallExpr) *value {
 				return &value{kind: "appendOne", inner: e.eval(c.Args[1]), dst: dst}
 			}
 			refuse("%s: builtin %s in value position", e.pos(c), id.Name)
+		}
+	}
+	if id, ok := ast.Unparen(c.Fun).(*ast.Ident); ok {
+		if fn, ok := info.Uses[id].(*types.Func); ok && fn.Pkg() != nil && fn.Pkg().Path() == astPkgPath && isDynSignature(fn) && len(c.Args) == 1 {
+			e.w.analyseDynHelper(fn)
+			x := e.eval(c.Args[0])
+			if x.kind != "asis" {
+				refuse("%s: %s applied to something that is not (part of) the receiver", e.pos(c), fn.Name())
+			}
+			if _, isIface := x.typ.Underlying().(*types.Interface); !isIface {
+				refuse("%s: %s applied to a value of static type %s", e.pos(c), fn.Name(), x.typ)
+			}
+			return &value{kind: "dyn", src: x.src, mode: &Mode{K: "dyn"}, typ: x.typ}
 		}
 	}
 	sel, ok := ast.Unparen(c.Fun).(*ast.SelectorExpr)
@@ -571,6 +700,8 @@ func (e *menv) elemMode(v *value, want src, at ast.Node) Mode {
 		return asIsMode(v.typ)
 	case "deep":
 		return *v.mode
+	case "dyn":
+		return Mode{K: "dyn"}
 	case "ptrdeep":
 		if v.mode.K != "recur" {
 			refuse("%s: pointer to a non-struct deep copy", e.pos(at))
@@ -584,7 +715,10 @@ func (e *menv) elemMode(v *value, want src, at ast.Node) Mode {
 // ---------------------------------------------------------------- classification of one field
 
 func (e *menv) classify(field string, t types.Type, at ast.Node) (Mode, string) {
-	evs := e.events[field]
+	return e.classifyEvents(field, t, e.events[field], at)
+}
+
+func (e *menv) classifyEvents(field string, t types.Type, evs []*value, at ast.Node) (Mode, string) {
 	kinds := make([]string, len(evs))
 	for i, v := range evs {
 		kinds[i] = v.kind
@@ -608,9 +742,55 @@ func (e *menv) classify(field string, t types.Type, at ast.Node) (Mode, string) 
 		made = true
 		rest = rest[1:]
 	}
+	if len(rest) == 2 && !made && rest[0].kind == "makeN" && rest[1].kind == "index" {
+		// make([]E, len(src)) then res[i] = <v of src[i]> over a loop on src
+		sameSrc(rest[0])
+		if _, ok := t.Underlying().(*types.Slice); !ok {
+			refuse("%s: sized make on non-slice %q", e.pos(at), field)
+		}
+		em := e.elemMode(rest[1].inner, src{field: field, part: "elem"}, at)
+		return Mode{K: "freshSlice", Elem: &em}, how
+	}
 	switch {
 	case len(rest) == 0:
 		return Mode{K: "omitted"}, how
+	case len(rest) == 1 && !made && rest[0].kind == "dyn":
+		sameSrc(rest[0])
+		if _, ok := t.Underlying().(*types.Interface); !ok {
+			refuse("%s: dynamic-value copy assigned to non-interface field %q", e.pos(at), field)
+		}
+		return Mode{K: "dyn"}, how
+	case len(rest) == 1 && !made && rest[0].kind == "ptrlit":
+		// res.F = &T{G: …}: inline copy of the pointed-to struct, field by field
+		pt, ok := t.Underlying().(*types.Pointer)
+		if !ok || !types.Identical(pt, rest[0].typ) {
+			refuse("%s: pointer literal of type %s assigned to field %q", e.pos(at), rest[0].typ, field)
+		}
+		named, _ := types.Unalias(pt.Elem()).(*types.Named)
+		var pst *types.Struct
+		if named != nil {
+			pst, _ = named.Underlying().(*types.Struct)
+		}
+		if pst == nil {
+			refuse("%s: pointer literal of a non-struct type for field %q", e.pos(at), field)
+		}
+		fms := make([]FieldMode, 0, pst.NumFields())
+		for i := 0; i < pst.NumFields(); i++ {
+			g := pst.Field(i)
+			key := field + "." + g.Name()
+			var gevs []*value
+			if lv, ok := rest[0].lit[g.Name()]; ok {
+				gevs = append(gevs, lv)
+			}
+			gevs = append(gevs, e.events[key]...)
+			e.consumed[key] = true
+			md, ghow := e.classifyEvents(key, g.Type(), gevs, at)
+			fms = append(fms, FieldMode{Field: g.Name(), Mode: md, How: "inline in " + e.m.name + ": " + ghow})
+		}
+		tname := typeName(named)
+		e.w.tyOf(named, "inline copy of "+tname)
+		e.w.addCopy(tname, fms)
+		return Mode{K: "viaPtrRec", T: tname}, how
 	case len(rest) == 1 && !made && rest[0].kind == "asis":
 		sameSrc(rest[0])
 		return asIsMode(t), how
